@@ -13,6 +13,7 @@ import FgaVerif.Model.PGraph
 import FgaVerif.Model.WGraph
 import FgaVerif.Model.WAssign
 import FgaVerif.Proofs.WAssignCycle
+import FgaVerif.Proofs.WAssignPost
 import FgaVerif.Spec.WeightsSem
 import FgaVerif.Gen.Atn
 import FgaVerif.Model.Conform
@@ -257,6 +258,9 @@ def opWAssign (m : Sexp) (order : List Sexp) : String :=
       let ord := order.filterMap (fun x => match x with | .str s => some (inv s) | .atom s => some (inv s) | _ => none)
       -- hypothesis of Props/C05.algorithm_prepass_sound: rewrite/computed edges end in nodes of the graph
       if !WAssign.rclosedB g then "(unclosed)" else
+      -- hypothesis of Props/C04.algorithm_no_placeholder_on_success / algorithm_edge_rule_on_success: no terminal
+      -- type of the graph is named like a cycle placeholder ("R#…")
+      if !WAssign.noPHTypesB g then "(placeholder-named-type)" else
       match WAssign.assignWeights g ord with
       | .error .modelCycle => "(err model-cycle)"
       | .error .tupleCycle => "(err tuple-cycle)"
